@@ -35,7 +35,7 @@ for p in props:
             "thorough_cmd": "./check %s --tier thorough" % pid,
             "evidence_file": "/verif/evidence/%s.json" % pid,
             "replay_cmd_template": "cat {path}",
-            "engine": "E1+E2" + ("+E3" if pid == "C18" else "") + ("+E4" if pid == "C20" else ""),
+            "engine": "E1+E2" + ("+E3" if pid in ("C18", "C01", "C07", "C15", "C16") else "") + ("+E4" if pid in ("C20", "C09", "C02") else ""),
             "level_claimed": {"category": level, "text": text, "design_ref": "DESIGN.md section 4, %s" % pid},
             "level_note": NOTE + " Not decided: " + "; ".join(getattr(mod, "NOT_DECIDED", [])),
             "technique": TECH.get(pid, DEFAULT_TECH),
@@ -53,9 +53,9 @@ m = {
     },
     "engines": [
         {"name": "E1", "path": "engine/driver", "serves_properties": [p["id"] for p in props], "kind_free_text": "rustc_private fact extractor: MIR (opt-level 0), resolved callees, ADT layouts, impls, evaluated constants -> JSON, injected with RUSTC_WORKSPACE_WRAPPER under cargo +nightly check"},
-        {"name": "E2", "path": "engine/rules", "serves_properties": [p["id"] for p in props], "kind_free_text": "Python rule engine: CFG/dominators, access-path resolution, guard-liveness dataflow (T1), rule templates T2-T12, per-property rule instantiations with floors and frozen tables"},
-        {"name": "E3", "path": "engine/typestate", "serves_properties": ["C18"], "kind_free_text": "symbolic extraction of the TransientSource automaton from MIR + breadth-first exploration under the documented protocol"},
-        {"name": "E4", "path": "engine/bits", "serves_properties": ["C20"], "kind_free_text": "bit-provenance abstract interpreter over straight-line MIR"},
+        {"name": "E2", "path": "engine/rules", "serves_properties": [p["id"] for p in props], "kind_free_text": "Python rule engine over the MIR facts: loader normalisations (rename undo against the reference item table, Option/Result combinator expansion with closure inlining, virtual inlining of new helpers with per-return epilogues, known-value jump threading), CFG/dominators, access-path resolution and storage identity, guard-liveness dataflow (T1), rule templates T2-T12, per-property rule instantiations with floors and frozen tables"},
+        {"name": "E3", "path": "engine/typestate", "serves_properties": ["C01", "C07", "C15", "C16", "C18"], "kind_free_text": "symbolic extraction of the TransientSource automaton from MIR + breadth-first exploration under the documented protocol"},
+        {"name": "E4", "path": "engine/bits", "serves_properties": ["C02", "C09", "C20"], "kind_free_text": "bit-provenance abstract interpreter over straight-line MIR (C20); exhaustive evaluation of small pure MIR functions over their finite enum input space (finite_eval.py: PostAction | PostAction for C09.5, Mode x bool -> PollMode for C02.3)"},
         {"name": "E5", "path": "witness", "serves_properties": ["C03", "C04", "C06", "C08", "C10", "C13", "C16", "C20"], "kind_free_text": "compile_fail witnesses with compiling twins (rustdoc, nightly), run by the thorough tier"},
     ],
     "checks": checks,
